@@ -275,10 +275,52 @@ def run_tree(asm, acc, seed, idx, ncli):
         shutil.rmtree(root, ignore_errors=True)
 
 
+def deep_chain(asm, acc, seed, idx, depth=60):
+    """a chain of `depth` files, each contributes lines before and after its include; sub-directories alternate"""
+    rng = random.Random('c14-deep-%d-%d' % (seed, idx))
+    root = tempfile.mkdtemp(prefix='bbv-c14-')
+    try:
+        flat_head, flat_tail = [], []
+        paths = []
+        d = root
+        for k in range(depth):
+            if k % 7 == 3:
+                d = os.path.join(d, 'n%d' % k)
+            paths.append(os.path.join(d, 'f%d.asm' % k))
+        for k, path in enumerate(paths):
+            os.makedirs(os.path.dirname(path), exist_ok=True)
+            head = ['D%d:' % k, 'addi x%d, x%d, %d' % (k % 32, (k + 1) % 32, k)]
+            tail = ['dh D%d' % k, 'DK%d = %d' % (k, rng.randrange(100))]
+            body = list(head)
+            if k + 1 < depth:
+                body.append('include %s' % os.path.relpath(paths[k + 1], os.path.dirname(path)))
+            body += tail
+            with open(path, 'w') as f:
+                f.write('\n'.join(body) + '\n')
+            flat_head += head
+            flat_tail = tail + flat_tail
+        flat = flat_head + flat_tail
+        for compress in (False, True):
+            acc['n'] += 1
+            ref = monitors.observe(asm, '\n'.join(flat) + '\n', compress, tap=False)
+            o = monitors.observe(asm, paths[0], compress, tap=False)
+            acc['ctr']['deep_chains'] += 1
+            core.see(acc, 'tree_depths', depth)
+            if ref.ok and (not o.ok or o.out != ref.out or o.labels != ref.labels or o.constants != ref.constants):
+                core.add_viol(acc, 'include chain of depth %d (compress=%s): %s; the flattened program gives %d bytes' % (
+                    depth, compress, ('%d bytes' % len(o.out)) if o.ok else '%s: %s' % (o.exc['type'], o.exc['msg'][:80]), len(ref.out)), {'seed': seed, 'idx': idx, 'deep': True}, {})
+            elif ref.ok:
+                acc['ntkeys'].add(core.ckey('deep', seed, idx, compress))
+    finally:
+        shutil.rmtree(root, ignore_errors=True)
+
+
 def run_shard(sh, deadline):
     asm = core.load_asm()
     acc = core.new_acc()
     for idx in range(sh['lo'], sh['hi']):
+        if idx % 80 == 13:
+            deep_chain(asm, acc, sh['seed'], idx)
         run_tree(asm, acc, sh['seed'], idx, sh['ncli'] if idx % sh['cli_every'] == 0 else 0)
         if time.time() > deadline:
             acc['truncated'] += 1
@@ -309,5 +351,8 @@ def gates(acc, tier):
 def replay(case):
     asm = core.load_asm()
     acc = core.new_acc()
-    run_tree(asm, acc, case['seed'], case['idx'], 2)
+    if case.get('deep'):
+        deep_chain(asm, acc, case['seed'], case['idx'])
+    else:
+        run_tree(asm, acc, case['seed'], case['idx'], 2)
     return acc
